@@ -9,7 +9,7 @@ PROP = {
     "rule": "cases = fragment soup / mutated corpus files / corpus verbatim / lossy random bytes / hand-picked recovery seeds x 8 language levels x doc on/off x shared NodeCache on/off; "
             "distinct = FNV of (text, level, doc); non-trivial = the produced tree has >= 8 tokens",
     "min_nontrivial": {"quick": 500000, "thorough": 5000000},
-    "max_secs": {"quick": 600, "thorough": 900},
+    "max_secs": {"quick": 600, "thorough": 1500},
     "require_clauses": ["a:text-equal", "b:tokens-tile", "family:soup", "family:corpus-mutant", "family:lossy-bytes", "family:special"],
     "assumptions": COMMON_ASSUME + ["inputs are UTF-8 strings <= 64 KiB (the API takes &str)"],
     "level_text": "Every generated input is parsed by the real LuaParser and an oracle checks byte-exact text equality and token tiling; ~400k (quick) to ~10M (thorough) inputs over all language levels. Exploration, not proof: it shows absence of loss on the inputs produced.",
